@@ -413,9 +413,26 @@ def count(repo, out):
                 any(astx.path(t) == 'self._iter_count' for t in n.ast.targets) and \
                 isinstance(n.ast.value, ast.Constant) and n.ast.value.value == 0
 
+        def _inc_amount(st):
+            """('+', k) for `c += k`, `c = c + k`, `c = k + c` on self._iter_count; ('other', None) for any
+            other update that reads the counter; None if the statement is not an update of it."""
+            if isinstance(st, ast.AugAssign) and astx.path(st.target) == 'self._iter_count':
+                if isinstance(st.op, ast.Add) and isinstance(st.value, ast.Constant):
+                    return ('+', st.value.value)
+                return ('other', None)
+            if isinstance(st, ast.Assign) and len(st.targets) == 1 and \
+                    astx.path(st.targets[0]) == 'self._iter_count' and isinstance(st.value, ast.BinOp) and \
+                    astx.mentions(st.value, '_iter_count'):
+                v = st.value
+                if isinstance(v.op, ast.Add):
+                    for a, b in ((v.left, v.right), (v.right, v.left)):
+                        if astx.path(a) == 'self._iter_count' and isinstance(b, ast.Constant):
+                            return ('+', b.value)
+                return ('other', None)
+            return None
+
         def is_inc(n):
-            return n.kind == 'stmt' and isinstance(n.ast, ast.AugAssign) and \
-                astx.path(n.ast.target) == 'self._iter_count'
+            return n.kind == 'stmt' and _inc_amount(n.ast) is not None
 
         def writes(n):
             return n.kind == 'stmt' and any(astx.path(t) == 'self._iter_count'
@@ -432,8 +449,7 @@ def count(repo, out):
         # no other write between reset and loop, none outside
         stray = [n for n in g.where(writes) if n not in resets and n not in incs]
         pre_incs = [n for n in incs if n not in body]
-        good_incs = [n for n in incs if n in body and isinstance(n.ast.op, ast.Add) and
-                     isinstance(n.ast.value, ast.Constant) and n.ast.value.value == 1]
+        good_incs = [n for n in incs if n in body and _inc_amount(n.ast) == ('+', 1)]
         if stray or pre_incs or len(good_incs) != len([n for n in incs if n in body]):
             x = (stray or pre_incs or [n for n in incs if n not in good_incs])[0]
             out.bad(fn, x.ast, 'unexpected write to self._iter_count (only `= 0` before the loop and '
@@ -683,11 +699,26 @@ def report(repo, out):
     fn = repo.func(SOLVER, 'Solver.report_failure')
     g = cfgm.build(fn)
 
+    rd = cfgm.ReachingDefs(g)
+
+    def is_options(e, at):
+        if astx.path(e) == 'self.options':
+            return True
+        if isinstance(e, ast.Name):    # local alias: opts = self.options
+            v = rd.value(at, e.id)
+            return v is not None and astx.path(v) == 'self.options'
+        return False
+
     def is_opt_test(n):
         if n.kind != 'test':
             return False
         t = n.ast.test
-        return isinstance(t, ast.Subscript) and astx.path(t.value) == 'self.options' and \
+        if isinstance(t, ast.Name):    # flag = self.options['err_on_non_converge'] ; if flag:
+            v = rd.value(n, t.id)
+            if v is None:
+                return False
+            t = v
+        return isinstance(t, ast.Subscript) and is_options(t.value, n) and \
             astx.const_str(t.slice) == 'err_on_non_converge'
     tests = g.where(is_opt_test)
     if not tests:
@@ -849,6 +880,10 @@ selftest(
            "        if iprint > -1 and print_flag:\n            print(self._solver_info.prefix + self.SOLVER + msg)\n        else:\n            return", 'C09.report'),
     Mutant('who-new-writer', 'openmdao/solvers/nonlinear/newton.py', '        self._solver_info.append_subsolver()\n',
            '        self._solver_info.append_subsolver()\n        self._iter_count = 0\n', 'C09.who'),
+    Twin('twin-count-plain-add', _S, '                self._single_iteration()\n                self._iter_count += 1\n                self._run_apply()', '                self._single_iteration()\n                self._iter_count = self._iter_count + 1\n                self._run_apply()'),
+    Twin('twin-report-alias-nested', _S, "        if self.options['err_on_non_converge']:\n            raise AnalysisError(msg)\n        elif 'debug_print' in self.options and self.options['debug_print']:",
+         "        opts = self.options\n        if opts['err_on_non_converge']:\n            raise AnalysisError(msg)\n        if 'debug_print' in self.options and self.options['debug_print']:"),
+    Mutant('count-plus-two', _S, '                self._single_iteration()\n                self._iter_count += 1\n                self._run_apply()', '                self._single_iteration()\n                self._iter_count = self._iter_count + 2\n                self._run_apply()', 'C09.count'),
     Twin('twin-flip-compare', _S, 'while self._iter_count < maxiter and norm > atol and norm / norm0 > rtol:',
          'while maxiter > self._iter_count and atol < norm and rtol < norm / norm0:'),
     Twin('twin-classify-reorder', _S, '        elif (norm > atol and norm / norm0 > rtol):', '        elif (norm / norm0 > rtol and norm > atol):'),
